@@ -352,7 +352,7 @@ struct ReplyWorld : World {
 	struct CReq {
 		uint32_t serial; int behaviour; bool awaited; uint64_t cid = 0; Bytes payload;
 		bool sent = false, push_failed = false, faulted = false;
-		int handled = 0, callbacks = 0, cancelled = 0; bool dropped = false;
+		int handled = 0, callbacks = 0, cancelled = 0; bool dropped = false, followup = false;
 		int allowed_handled = 1, allowed_callbacks = 1;   // datagram layer: number of request / reply datagrams delivered
 		int replies_made = 0; bool net_faulted = false;
 		bool discarded = false;             // dispatched by the peer without handler
@@ -363,7 +363,7 @@ struct ReplyWorld : World {
 		reply_context_detached *late = 0;    // handle of a deferred answer, held by the peer's handler
 	};
 	struct Peer { const char *name; connection *con = 0; stream *srm = 0; int fd = -1, rchan = -1, wchan = -1; std::vector<CReq> sent; };
-	struct ConnCtx { Peer peer[2]; Log *log; Stats *st; unsigned idlen; int discards[2] = {0, 0}; bool zero_rich = false; };
+	struct ConnCtx { Peer peer[2]; Log *log; Stats *st; uint32_t *serial = 0; unsigned idlen; int discards[2] = {0, 0}; bool zero_rich = false; };
 	static std::string answer_text(const CReq &q) { char b[32]; snprintf(b, sizeof(b), "r%u;", q.serial); return b; }
 	// reply callback registered with mpt_connection_await: arg = side << 16 | (index + 1)
 	static int conn_reply_cb(void *arg, const message *msg) {
@@ -391,7 +391,23 @@ struct ReplyWorld : World {
 		if (expl && !text && !q.late_dropped) { pend("wrong-answer", "answer to r%u (behaviour %d) lacks the responder's text", q.serial, q.behaviour); return 0; }
 		if (!expl) { Bytes w = {(uint8_t) msgtype::Answer, (uint8_t) (q.behaviour == 3 ? -3 : 0)}; if (body != w) pend("wrong-answer", "default answer to r%u is [%s]", q.serial, hex(body, 12).c_str()); }
 		if (q.cb_result < 0) C.st->hit("probe:reply_handler_failed");
-		return q.cb_result;
+		int res = q.cb_result;
+		if (q.followup && C.serial && C.peer[side].con && C.peer[side].sent.size() < 60) {
+			// the handler of an answer sends a follow-up request of its own (awaited): the table of outstanding requests changes under the
+			// caller that is just handing this answer over
+			q.followup = false;
+			CReq n; n.serial = (*C.serial)++; n.behaviour = 0; n.awaited = true; n.cb_result = 0;
+			n.payload = {0x08, 0x00}; for (int k = 0; k < 4; ++k) n.payload.push_back((uint8_t) (n.serial >> (8 * k)));
+			C.peer[side].sent.push_back(n);      // (q is gone from here on)
+			size_t nidx = C.peer[side].sent.size() - 1; CReq &N = C.peer[side].sent.back(); connection *con = C.peer[side].con;
+			int ar; ssize_t r = -1;
+			{ Reenter s; ar = mpt_connection_await(con, conn_reply_cb, (void *) (uintptr_t) ((side << 16) | (nidx + 1)));
+			  if (ar >= 0) { N.cid = con->cid; r = mpt_connection_push(con, N.payload.size(), N.payload.data()); if (r == (ssize_t) N.payload.size()) r = mpt_connection_push(con, 0, 0); else if (r >= 0) { mpt_connection_push(con, 1, 0); r = -1; } } }
+			if (ar >= 0 && r >= 0) N.sent = true; else N.push_failed = true;
+			C.log->ev("    %s: follow-up request r%u (id %llx) from the reply handler -> %s", C.peer[side].name, N.serial, (unsigned long long) N.cid, N.sent ? "sent" : "failed");
+			C.st->hit("probe:followup_request_from_reply_handler");
+		}
+		return res;
 	}
 	// request handler of the serving side: arg = serving side
 	static int conn_handler(void *arg, event *ev) {
@@ -446,7 +462,7 @@ struct ReplyWorld : World {
 		}
 		log.ev("reply L2 idlen=%u chancap=%zu reply intake=%s", idlen, chancap, use_sync ? "sync+dispatch" : "dispatch");
 		st.hit("layer:L2");
-		uint32_t serial = 1;
+		uint32_t serial = 1; C.serial = &serial;
 		auto mark_faulted = [&](const std::vector<int> &b0, const std::vector<int> &b1) {
 			for (int s = 0; s < 2; ++s) { const std::vector<int> &b = s ? b1 : b0; for (size_t k = 0; k < C.peer[s].sent.size(); ++k) if (C.peer[s].sent[k].handled && (k >= b.size() || !b[k])) C.peer[s].sent[k].faulted = true; }
 		};
@@ -496,6 +512,7 @@ struct ReplyWorld : World {
 				CReq q; q.serial = serial++; q.behaviour = (int) ((op.b >> 8) & 0xff) % 7; q.awaited = (op.b >> 16) & 1; q.cb_result = ((op.a >> 2) & 3) == 0 ? -1 : 0;
 				q.payload = {0x08, 0x00}; for (int k = 0; k < 4; ++k) q.payload.push_back((uint8_t) (q.serial >> (8 * k)));
 				size_t extra = big ? (size_t) ((uint64_t) op.a >> 5) % 250 : (size_t) op.c % 40; for (size_t k = 0; k < extra; ++k) q.payload.push_back((uint8_t) (op.a >> (k % 8)));
+				q.followup = q.awaited && ((uint64_t) op.a & 0x6000) == 0x6000;
 				P.sent.push_back(q); CReq &Q = P.sent.back(); size_t idx = P.sent.size() - 1;
 				bool fired = false; int ar = 0;
 				{ Sut s(failn);
